@@ -5,6 +5,8 @@
 use crate::model::*;
 use crate::ops::{run_impl, ImplOut};
 use lvmc_core::{guarded, json, Value, Violation};
+use rand::seq::SliceRandom;
+use rand::Rng;
 use std::collections::BTreeMap;
 
 #[derive(Default)]
@@ -378,6 +380,36 @@ fn cmp_selection(cx: &mut Cx, o: &Obs, p: &Model, rows: Sel, cols: Sel, which: &
     cx.v.len() == before
 }
 
+/// Source row of every returned row, decided by the identity tags (None when the source rows are
+/// not distinguishable: duplicated samples, no feature column).
+fn row_indices(o: &Obs, p: &Model) -> Option<Vec<usize>> {
+    if p.nf == 0 || o.nf == 0 {
+        return None;
+    }
+    let mut by_sid: BTreeMap<i64, usize> = BTreeMap::new();
+    for i in 0..p.n() {
+        if by_sid.insert(p.sid(i)?, i).is_some() {
+            return None;
+        }
+    }
+    o.rec.iter().map(|r| by_sid.get(&sample_of(r[0])).cloned()).collect()
+}
+
+/// Source column of every returned column (None when the source columns are not distinguishable).
+fn col_indices(o: &Obs, p: &Model) -> Option<Vec<usize>> {
+    if p.n() == 0 || o.n == 0 {
+        return None;
+    }
+    let pf: Vec<i64> = p.rec[0].iter().map(|&t| feature_of(t)).collect();
+    let mut q = pf.clone();
+    q.sort();
+    q.dedup();
+    if q.len() != pf.len() {
+        return None;
+    }
+    o.rec[0].iter().map(|&t| pf.iter().position(|&f| f == feature_of(t))).collect()
+}
+
 fn count_mismatch(cx: &mut Cx, got: usize, want: usize, what: &str) -> bool {
     if got != want {
         cx.fail("wrong_number_of_results", format!("expected {} {}, got {}", want, what, got));
@@ -473,56 +505,119 @@ pub fn step(parent: &Model, act: &Act, history: &[String]) -> StepOut {
                 }
             }
         }
-        Act::Shuffle { script, .. } => {
+        Act::Shuffle { .. } => {
             if !count_mismatch(&mut cx, res.outs.len(), 1, "dataset") {
                 ok[0] = cmp_selection(&mut cx, &res.outs[0], p, Sel::All, Sel::All, "shuffled dataset");
-                if ok[0] && p.nf > 0 {
-                    let perm = shuffle_perm(n, script);
-                    let want: Vec<i64> = perm.iter().map(|&i| p.sid(i).unwrap()).collect();
-                    let got: Vec<i64> = res.outs[0].rec.iter().map(|r| sample_of(r[0])).collect();
-                    out.script_honoured = Some(want == got && res.rng_exact == Some(true));
+                if ok[0] {
+                    // lock-step reference: rand's own slice shuffle on an identical generator
+                    let mut rr = script_rng(act, n, p.nf);
+                    let mut want: Vec<usize> = (0..n).collect();
+                    want.shuffle(&mut rr);
+                    if let Some(got) = row_indices(&res.outs[0], p) {
+                        let same = got == want;
+                        out.script_honoured = Some(same);
+                        if !same {
+                            cx.fail("permutation_differs_from_rand_shuffle_on_same_generator", format!("{:?}: rows came out as source rows {}, rand's shuffle of 0..{} on the same generator gives {}", act, brief(&got), n, brief(&want)));
+                            ok[0] = false;
+                        }
+                    }
                 }
             }
         }
-        Act::BootSamples { m, items, script, .. } => {
+        Act::BootSamples { m, items, .. } => {
             if !count_mismatch(&mut cx, res.outs.len(), *items, "datasets") {
-                let mut hon = res.rng_exact == Some(true);
+                let mut rr = script_rng(act, n, p.nf);
+                let mut hon = true;
                 for (i, o) in res.outs.iter().enumerate() {
                     ok[i] = cmp_selection(&mut cx, o, p, Sel::Draw(*m), Sel::All, "bootstrapped dataset");
+                    // lock-step reference: rand's gen_range(0..n) on an identical generator
+                    let want: Vec<usize> = (0..*m).map(|_| rr.gen_range(0..n)).collect();
                     if ok[i] {
-                        let want: Vec<i64> = script[i * m..(i + 1) * m].iter().map(|&k| p.sid(k).unwrap()).collect();
-                        let got: Vec<i64> = o.rec.iter().map(|r| sample_of(r[0])).collect();
-                        hon &= want == got;
+                        if let Some(got) = row_indices(o, p) {
+                            if got != want {
+                                hon = false;
+                                ok[i] = false;
+                                cx.fail("selection_differs_from_gen_range_on_same_generator", format!("{:?}, item {}: drew source rows {}, gen_range(0..{}) on the same generator gives {}", act, i, brief(&got), n, brief(&want)));
+                            }
+                        }
                     }
                 }
                 out.script_honoured = Some(hon);
             }
         }
-        Act::BootFeatures { q, items, script, .. } => {
+        Act::BootFeatures { q, items, .. } => {
             if !count_mismatch(&mut cx, res.outs.len(), *items, "datasets") {
-                let mut hon = res.rng_exact == Some(true);
+                let mut rr = script_rng(act, n, p.nf);
+                let mut hon = true;
                 for (i, o) in res.outs.iter().enumerate() {
                     ok[i] = cmp_selection(&mut cx, o, p, Sel::All, Sel::Draw(*q), "feature-bootstrapped dataset");
-                    if ok[i] && n > 0 {
-                        let want: Vec<i64> = script[i * q..(i + 1) * q].iter().map(|&k| feature_of(p.rec[0][k])).collect();
-                        let got: Vec<i64> = o.rec[0].iter().map(|&t| feature_of(t)).collect();
-                        hon &= want == got;
+                    let want: Vec<usize> = (0..*q).map(|_| rr.gen_range(0..p.nf)).collect();
+                    if ok[i] {
+                        if let Some(got) = col_indices(o, p) {
+                            if got != want {
+                                hon = false;
+                                ok[i] = false;
+                                cx.fail("selection_differs_from_gen_range_on_same_generator", format!("{:?}, item {}: drew source columns {:?}, gen_range(0..{}) on the same generator gives {:?}", act, i, got, p.nf, want));
+                            }
+                        }
                     }
                 }
                 out.script_honoured = Some(hon);
             }
         }
-        Act::Boot { m, q, script, .. } => {
+        Act::Boot { m, q, .. } => {
             if !count_mismatch(&mut cx, res.outs.len(), 1, "dataset") {
                 let o = &res.outs[0];
                 ok[0] = cmp_selection(&mut cx, o, p, Sel::Draw(*m), Sel::Draw(*q), "bootstrapped dataset");
                 if ok[0] {
-                    let want_r: Vec<i64> = script[..*m].iter().map(|&k| p.sid(k).unwrap()).collect();
-                    let got_r: Vec<i64> = o.rec.iter().map(|r| sample_of(r[0])).collect();
-                    let want_c: Vec<i64> = script[*m..].iter().map(|&k| feature_of(p.rec[0][k])).collect();
-                    let got_c: Vec<i64> = o.rec[0].iter().map(|&t| feature_of(t)).collect();
-                    out.script_honoured = Some(want_r == got_r && want_c == got_c && res.rng_exact == Some(true));
+                    let mut rr = script_rng(act, n, p.nf);
+                    let want_r: Vec<usize> = (0..*m).map(|_| rr.gen_range(0..n)).collect();
+                    let want_c: Vec<usize> = (0..*q).map(|_| rr.gen_range(0..p.nf)).collect();
+                    if let (Some(got_r), Some(got_c)) = (row_indices(o, p), col_indices(o, p)) {
+                        let same = got_r == want_r && got_c == want_c;
+                        out.script_honoured = Some(same);
+                        if !same {
+                            ok[0] = false;
+                            cx.fail(
+                                "selection_differs_from_gen_range_on_same_generator",
+                                format!("{:?}: drew source rows {:?} and columns {:?}, gen_range on the same generator gives rows {:?} and columns {:?}", act, got_r, got_c, want_r, want_c),
+                            );
+                        }
+                    }
                 }
+            }
+        }
+        Act::DrawCoverage { features, .. } => {
+            let range = if *features { p.nf } else { n };
+            if !count_mismatch(&mut cx, res.outs.len(), range, "datasets (one run per index)") {
+                let mut drawn: Vec<bool> = vec![false; range];
+                let mut decided = true;
+                for (d, o) in res.outs.iter().enumerate() {
+                    let fine = if *features { cmp_selection(&mut cx, o, p, Sel::All, Sel::Draw(2), "feature-bootstrapped dataset") } else { cmp_selection(&mut cx, o, p, Sel::Draw(2), Sel::All, "bootstrapped dataset") };
+                    let got = if *features { col_indices(o, p) } else { row_indices(o, p) };
+                    match (fine, got) {
+                        (true, Some(g)) => {
+                            for &i in &g {
+                                drawn[i] = true;
+                            }
+                            if g != vec![d; 2] {
+                                cx.fail("selection_differs_from_gen_range_on_same_generator", format!("generator answering {} to every draw of 0..{}: drew {:?}", d, range, g));
+                            }
+                        }
+                        _ => decided = false,
+                    }
+                }
+                if decided {
+                    let never: Vec<usize> = (0..range).filter(|&i| !drawn[i]).collect();
+                    if !never.is_empty() {
+                        cx.fail(
+                            "index_never_drawn",
+                            format!("over the {} generators that answer d = 0..{} to every draw, the {} indices {:?} of 0..{} were never drawn (uniform sampling with replacement must be able to draw every one, in particular the last)", range, range - 1, if *features { "feature" } else { "sample" }, never, range),
+                        );
+                    }
+                    out.script_honoured = Some(never.is_empty());
+                }
+                // coverage runs produce no successors (the same datasets come from the scripted actions)
             }
         }
         Act::WithLabels { labels, .. } => {
